@@ -160,6 +160,7 @@ type Machine struct {
 	floatCache     map[string]*Term
 	encBlobs       []*Blob
 	lastHexID      string
+	nextRecID      *Term // recovery id the next modelled crypto.Sign produces (harness request.verifNextRecID)
 	reflCalls      int
 	wsConns        []*wsConn
 	urlReg         map[*Term]*urlParts
